@@ -198,3 +198,44 @@ def extend(repo, T, ex):
     waits = [n for n in ast.walk(spg) if isinstance(n, ast.Call) and isinstance(n.func, ast.Attribute)
              and n.func.attr == "wait"]
     T["appPingWaits"] = len(waits)
+
+    # ---- the two keepalive stamps.
+    #   _send_ping:  `if self.last_pong_tm >= self.last_ping_tm: self.last_ping_tm = time.time()`  (an unanswered ping keeps
+    #                its stamp)  or the unconditional assignment of the pinned commit
+    #   read():      `if self.last_pong_tm < self.last_ping_tm: self.last_pong_tm = time.time()`   (only the answer to the
+    #                outstanding ping is timed)  or the unconditional assignment
+    def _cmp(test, left, op, right):
+        return (isinstance(test, ast.Compare) and len(test.ops) == 1 and isinstance(test.ops[0], op)
+                and _is_self_attr(test.left, left) and _is_self_attr(test.comparators[0], right))
+
+    def _stamp_shape(fn, attr, left, op, right):
+        """True = guarded as described, False = unconditional; anything else is an ExtractError."""
+        hits = []
+
+        def walk(stmts, guards):
+            for st in stmts:
+                if isinstance(st, ast.Assign) and any(_is_self_attr(t, attr) for t in st.targets):
+                    hits.append(list(guards))
+                for fld in ("body", "orelse", "finalbody"):
+                    sub = getattr(st, fld, None)
+                    if isinstance(sub, list) and not isinstance(st, (ast.FunctionDef, ast.ClassDef)):
+                        walk(sub, guards + ([st] if isinstance(st, ast.If) and fld == "body" else
+                                            [("else", st)] if isinstance(st, ast.If) else []))
+                for h in getattr(st, "handlers", []) or []:
+                    walk(h.body, guards)
+        walk(fn.body, [])
+        if len(hits) != 1:
+            raise ex.ExtractError(f"{fn.name}: {len(hits)} assignments to {attr}")
+        ifs = [g for g in hits[0] if isinstance(g, ast.If) and any(_is_self_attr(n, "last_ping_tm") or _is_self_attr(n, "last_pong_tm")
+                                                                    for n in ast.walk(g.test))]
+        if any(isinstance(g, tuple) for g in hits[0]) and any(
+                _is_self_attr(n, "last_ping_tm") or _is_self_attr(n, "last_pong_tm") for g in hits[0] if isinstance(g, tuple)
+                for n in ast.walk(g[1].test)):
+            raise ex.ExtractError(f"{fn.name}: {attr} assigned in an else-branch over the stamps")
+        if not ifs:
+            return False
+        if len(ifs) == 1 and _cmp(ifs[0].test, left, op, right) and not ifs[0].orelse:
+            return True
+        raise ex.ExtractError(f"{fn.name}: {attr} is guarded in a shape the model does not know")
+    T["appPingStampWhenAnswered"] = _stamp_shape(spg, "last_ping_tm", "last_pong_tm", ast.GtE, "last_ping_tm")
+    T["appPongStampWhenOutstanding"] = _stamp_shape(inner["read"], "last_pong_tm", "last_pong_tm", ast.Lt, "last_ping_tm")
